@@ -699,12 +699,14 @@ impl InnerNodeManage {
     /// `check_node_status`; the others can never time out.  An empty list leaves the manager in
     /// its state before the first `UpdateNodes`.  With `by_timer` the nodes to be invalidated
     /// are only left silent from now on: the started actor's own 3 s heartbeat marks them
-    /// after the genuine 15 s.
+    /// after the genuine 15 s.  With `with_senders` every other node gets a real
+    /// `ClusteSyncSender` actor (without network sender), as `update_nodes` creates them.
     pub fn verif_new_with_nodes(
         local_id: u64,
         nodes: Vec<(u64, Arc<String>, bool)>,
         naming_actor: Option<Addr<NamingActor>>,
         by_timer: bool,
+        with_senders: bool,
     ) -> Self {
         let mut s = Self::new(local_id);
         s.naming_actor = naming_actor;
@@ -712,12 +714,17 @@ impl InnerNodeManage {
             return s;
         }
         for (id, addr, valid) in nodes {
+            let sync_sender = if with_senders && local_id != id {
+                Some(ClusteSyncSender::new(local_id, id, addr.clone(), None).start())
+            } else {
+                None
+            };
             let node = ClusterInnerNode {
                 id,
                 index: 0,
                 is_local: local_id == id,
                 addr,
-                sync_sender: None,
+                sync_sender,
                 status: NodeStatus::Valid,
                 last_active_time: if valid {
                     u64::MAX
@@ -757,5 +764,57 @@ impl InnerNodeManage {
     /// the genuine `get_all_nodes`
     pub fn verif_get_all_nodes(&self) -> Vec<ClusterNode> {
         self.get_all_nodes()
+    }
+}
+
+/// Verification hooks: drive the periodic actions of the node manager at a chosen moment.
+#[cfg(rnacos_verif)]
+#[derive(Message)]
+#[rtype(result = "anyhow::Result<Vec<(u64, bool, Vec<Arc<String>>)>>")]
+pub enum VerifNodeManageCmd {
+    /// the node has been silent for more than 15 s: the genuine `check_node_status`
+    Starve(u64),
+    /// the genuine `send_distort_data` (rate limit reset)
+    SendDistro,
+    /// the genuine `load_snapshot_from_node` (what a joining node does after 1 s)
+    LoadSnapshot,
+    /// (node id, status == Valid, client_set)
+    Dump,
+}
+
+#[cfg(rnacos_verif)]
+impl Handler<VerifNodeManageCmd> for InnerNodeManage {
+    type Result = anyhow::Result<Vec<(u64, bool, Vec<Arc<String>>)>>;
+
+    fn handle(&mut self, msg: VerifNodeManageCmd, ctx: &mut Self::Context) -> Self::Result {
+        match msg {
+            VerifNodeManageCmd::Starve(node_id) => {
+                if let Some(node) = self.all_nodes.get_mut(&node_id) {
+                    node.last_active_time = 0;
+                }
+                self.check_node_status();
+                Ok(vec![])
+            }
+            VerifNodeManageCmd::SendDistro => {
+                self.last_send_distor_data_time = 0;
+                self.send_distort_data(ctx);
+                Ok(vec![])
+            }
+            VerifNodeManageCmd::LoadSnapshot => {
+                self.load_snapshot_from_node();
+                Ok(vec![])
+            }
+            VerifNodeManageCmd::Dump => Ok(self
+                .all_nodes
+                .values()
+                .map(|n| {
+                    (
+                        n.id,
+                        n.status == NodeStatus::Valid,
+                        n.client_set.iter().cloned().collect(),
+                    )
+                })
+                .collect()),
+        }
     }
 }
